@@ -179,6 +179,17 @@ def cycle_template(L, kind):
     return Template("cyc", OrderedDict([PKG, ("tq.m1", {"a": src})]), [], ("tq.m1", "c0"), ["tq"], [])
 
 
+def cross_module_template(kind):
+    """A cycle of length 2 across two accepted modules whose functions import each other inside their bodies (the usual way to break an
+    import cycle). kind: 'call' plain calls, 'eval' the second module (which imports dds only inside the function) nests dds.eval instead."""
+    m1 = HEAD + "\n\ndef c0():\n    import tq.m2\n    tick.hit(\"c0\")\n    return (0, tq.m2.c1())\n"
+    if kind == "eval":
+        m2 = "from vlib import tick\n\n\ndef inner():\n    tick.hit(\"inner\")\n    return 1\n\n\ndef c1():\n    import dds\n    tick.hit(\"c1\")\n    return (1, dds.eval(inner))\n"
+    else:
+        m2 = HEAD + "\n\ndef c1():\n    import tq.m1\n    tick.hit(\"c1\")\n    return (1, tq.m1.c0())\n"
+    return Template("xmod", OrderedDict([PKG, ("tq.m2", {"a": m2}), ("tq.m1", {"a": m1})]), [], ("tq.m1", "c0"), ["tq"], [])
+
+
 def nested_eval_template(depth):
     src = HEAD + "\n\ndef inner():\n    tick.hit(\"inner\")\n    return 1\n"
     prev = "dds.eval(inner)"
@@ -194,13 +205,16 @@ def prog_impl(a):
         return True
     sel = h.SEL
     hashmodel.install()
-    t = cycle_template(sel["L"], sel["kind"]) if sel["family"] == "cycle" else nested_eval_template(sel["depth"])
+    if sel["family"] == "xmod":
+        t = cross_module_template(sel["kind"])
+    else:
+        t = cycle_template(sel["L"], sel["kind"]) if sel["family"] == "cycle" else nested_eval_template(sel["depth"])
     w = World(t, "memory")
     mem = w.store.inner
     before = (dict(mem._cache), dict(mem._paths))
     style = "eval" if a["style"] == 0 else "keep"
     r = w.run_real(style, (), path="/cyc/root")
-    want = DDSErrorCode.CIRCULAR_CALL if sel["family"] == "cycle" else DDSErrorCode.EVAL_IN_EVAL
+    want = DDSErrorCode.CIRCULAR_CALL if (sel["family"] == "cycle" or (sel["family"] == "xmod" and sel["kind"] != "eval")) else DDSErrorCode.EVAL_IN_EVAL
     ok = r[0] == "dds" and r[1] == want and not tick.LOG and (dict(mem._cache), dict(mem._paths)) == before
     if not ok:
         LAST_DETAIL[0] = "%r: result %r, executed %r" % (sel, r[:2], list(tick.LOG))
@@ -262,6 +276,9 @@ def queries(tier):
     for L in (1, 2, 3):
         for kind in ("call", "keep", "href"):
             qs.append({"id": "cycle.%d.%s" % (L, kind), "fn": "prog", "sel": {"family": "cycle", "L": L, "kind": kind}, "timeout": 200})
+    # the offending call sits in another accepted module and is reached through a function-local import
+    for kind in ("call", "eval"):
+        qs.append({"id": "xmod.%s" % kind, "fn": "prog", "sel": {"family": "xmod", "kind": kind}, "timeout": 200})
     for d in (1, 2, 3):
         qs.append({"id": "eval.depth%d" % d, "fn": "prog", "sel": {"family": "eval", "depth": d}, "timeout": 200})
     return qs
